@@ -1,9 +1,9 @@
 SPECIFICATION Spec
-CONSTANT MaxCalls = 3
+CONSTANT MaxCalls = 2
 CONSTANT MaxPerPeer = 2
-CONSTANT KindSet = {"NowOk", "NowUndecl", "LaterOk", "LaterDeclSub", "NowFatalSub", "Never"}
-CONSTANT Flags = {FALSE}
-CONSTANT QC = {TRUE}
+CONSTANT KindSet = {"NowOk", "LaterOk", "LaterUndecl", "Never"}
+CONSTANT Flags = {TRUE, FALSE}
+CONSTANT QC = {TRUE, FALSE}
 VIEW View
 INVARIANT ExactlyOnce
 INVARIANT OwnResult
